@@ -12,11 +12,12 @@ import re
 from harness import oracles
 
 ID = "C10"
-RULE = ("simple loop-free graphs (arbitrary vertex names / insertion order) x max_size in {0,2,3,4,5} x a scripted "
+RULE = ("simple loop-free graphs (arbitrary vertex names / insertion order) x max_size in {0,2,3,4} (random graphs: 0,2..7) x a scripted "
         "shuffle of the full clique list; all graphs on <= 4 vertices and (thorough: all / quick: a seeded third of) "
         "the 1024 labelled graphs on 5 vertices, each with identity, reversed, random full permutations, random "
-        "per-size-class permutations and (when <= 720) ALL permutations of the 2-/3-clique classes or of the whole "
-        "list; random graphs to 10 vertices with planted / overlapping cliques (max_size to 7; a fifth of them after "
+        "per-size-class permutations and ALL permutations of the whole list (when it has <= 6 entries) or of the 2-/3-clique "
+        "classes (when there are <= 500 in thorough, <= 24 in quick); "
+        "random graphs to 10 vertices with planted / overlapping cliques (max_size to 7; a fifth of them after "
         "an earlier MPCC call on the same graph object or on another graph); a small stream with max_size 1 / "
         "negative (outside the property: correspondence only). Compared with the model: the label "
         "(size, member list in order, id) of every edge, node and edge sets before/after, `ret is G`, one shuffle "
@@ -26,7 +27,7 @@ EXHAUSTIVE = {"quick": False, "thorough": True}
 EXPLANATION = ("general theorems (all graphs, all size limits 0 or >= 2, all arrangements of the clique list) in "
                "Props/C10.v; correspondence: thorough = every labelled graph on <= 5 vertices x 4 size limits x "
                "(all schedules when the clique list has <= 6 entries, else all 2-/3-clique class permutations when "
-               "<= 720, plus seeded samples); quick = all graphs <= 4 vertices and a seeded third of the 5-vertex "
+               "<= 500, plus seeded samples); quick = all graphs <= 4 vertices and a seeded third of the 5-vertex "
                "ones with fewer schedules each; random graphs to 10 vertices in both tiers")
 ASSUMPTIONS = [
     "nx.enumerate_all_cliques(g) lists every clique of g exactly once (checked on every case: the logged list must "
@@ -174,7 +175,7 @@ def _scheds_for(rng, nodes, edges, tier, nrand):
     # all permutations inside the 2- and 3-clique classes when that is small
     c2, c3 = counts.get(2, 0), counts.get(3, 0)
     n23 = math.factorial(c2) * math.factorial(c3)
-    cap = 720 if tier == "thorough" else 24
+    cap = 500 if tier == "thorough" else 24
     if 1 < n23 <= cap:
         for r2 in range(math.factorial(c2)):
             for r3 in range(math.factorial(c3)):
@@ -252,7 +253,7 @@ def generate(rng, tier):
             for ms in mss:
                 if len(scheds) > 40 and quick:
                     use = rng.sample(scheds, 40)
-                elif len(scheds) > 500:
+                elif len(scheds) > 520:
                     use = rng.sample(scheds, 500)
                 else:
                     use = scheds
@@ -532,7 +533,7 @@ def search(rng, tier, seeds):
     for c in seeds:
         for s in _scheds_for(rng, c["nodes"], c["edges"], "quick", 10)[:60]:
             for ms in (c["ms"], 0, 2, 3):
-                batch.append(_case(c["nodes"], c["edges"], ms, s))
+                batch.append(_case(c["nodes"], c["edges"], ms, s, c.get("prior")))
         if len(batch) >= 300:
             yield batch
             batch = []
